@@ -176,6 +176,10 @@ pub extern "C" fn verif_mark(id: u32, v: u64) {
 
 #[no_mangle]
 pub extern "C" fn verif_set_thread(_t: u32) {}
+#[no_mangle]
+pub extern "C" fn verif_thread_zombie(_t: u32) {}
+#[no_mangle]
+pub extern "C" fn verif_thread_gone(_t: u32) {}
 
 #[no_mangle]
 pub extern "C" fn verif_merge() {}
@@ -202,6 +206,35 @@ pub struct UserPanic(pub u32);
 // ---- worker threads for sequential multi-thread histories ------------------------------------
 
 type Job = Box<dyn FnOnce() + Send>;
+
+/// closures to run when the worker thread's thread-locals are being torn down. The worker touches this
+/// thread-local before anything else, so its destructor runs AFTER those of the crate's thread-locals
+/// (registered later): the closures see the crate's TLS already destroyed.
+struct Late(std::cell::RefCell<Vec<Job>>);
+impl Drop for Late {
+    fn drop(&mut self) {
+        for j in self.0.borrow_mut().drain(..) {
+            j();
+        }
+    }
+}
+thread_local! {
+    static LATE: Late = Late(std::cell::RefCell::new(Vec::new()));
+}
+
+pub fn on_dying_thread<F: FnOnce() + Send>(t: u32, f: F) {
+    let (dtx, drx) = channel::<std::thread::Result<()>>();
+    let late: Box<dyn FnOnce() + Send + '_> = Box::new(move || {
+        let r = std::panic::catch_unwind(std::panic::AssertUnwindSafe(f));
+        let _ = dtx.send(r);
+    });
+    let late: Job = unsafe { std::mem::transmute(late) };
+    on_thread(t, move || LATE.with(|l| l.0.borrow_mut().push(late)));
+    verif_thread_exit(t);
+    if let Ok(Err(p)) = drx.recv() {
+        std::panic::resume_unwind(p);
+    }
+}
 static WORKERS: Mutex<Option<HashMap<u32, (Sender<Job>, std::thread::JoinHandle<()>)>>> = Mutex::new(None);
 
 pub fn on_thread<R: Send, F: FnOnce() -> R + Send>(t: u32, f: F) -> R {
@@ -221,6 +254,7 @@ pub fn on_thread<R: Send, F: FnOnce() -> R + Send>(t: u32, f: F) -> R {
         let entry = map.entry(t).or_insert_with(|| {
             let (tx, rx) = channel::<Job>();
             let h = std::thread::spawn(move || {
+                LATE.with(|_| ());
                 set_my_id(0); // same nondet stream as the driver in sequential mode
                 while let Ok(job) = rx.recv() {
                     job();
@@ -271,4 +305,17 @@ pub extern "C" fn verif_slots_all_empty() -> bool {
 #[no_mangle]
 pub extern "C" fn verif_try(f: extern "C-unwind" fn()) -> bool {
     std::panic::catch_unwind(|| f()).is_err()
+}
+
+#[no_mangle]
+pub extern "C" fn verif_node_count() -> u64 {
+    #[cfg(arc_swap_verif)]
+    {
+        arc_swap::verif_hooks::node_snapshot().len() as u64
+    }
+    #[cfg(not(arc_swap_verif))]
+    {
+        println!("NO-HOOKS node_snapshot unavailable");
+        std::process::exit(5);
+    }
 }
